@@ -181,6 +181,7 @@ let () =
         (* ---- FAIL: the monitor ---- *)
         (match w with
          | "BADFD" :: _ -> fail "bad-descriptor" l
+         | "CBOP" :: _ -> feat "cbop"
          | "QLEN" :: v :: _ -> active := (match int_of_string_opt v with Some q -> Some (q > 0) | None -> None)
          | "SENDTO" :: s :: rest ->
            (match sock_of s with
@@ -191,6 +192,12 @@ let () =
                | _ -> Hashtbl.replace want_w kk (match kv "errno" rest with Some ("EAGAIN" | "EWOULDBLOCK") -> true | _ -> false))
             | None -> ())
          | "CLOSE" :: s :: _ -> (match sock_of s with Some kk -> Hashtbl.remove sent_ok kk; Hashtbl.remove want_w kk | None -> ())
+         | _ -> ());
+        (match w with
+         | "ENDSTATE" :: rest ->
+           (match kv "open_sockets" rest with
+            | Some v when v <> "[]" -> fail "leak" (Printf.sprintf "sockets still open at the end of the history (after ares_destroy): %s" v)
+            | _ -> ())
          | _ -> ());
         (match event_of w with
          | Some e when not !dead ->
@@ -232,8 +239,11 @@ let () =
                                   (String.concat "," (List.map string_of_int r)) (String.concat "," (List.map string_of_int exp)))
             | None -> ())
          | "OP" :: _ when cfg4.has_cb && not !dead ->
-           (* operation boundary: busy sockets must be watched *)
+           (* operation boundary: busy sockets must be watched; a socket the application was told
+              to stop watching must have been closed *)
            List.iteri (fun kk s ->
+             if s.ms_phase <> PClosed && s.ms_stopped then
+               fail "stopped-not-closed" (Printf.sprintf "line %d: the application was told to stop watching s%d but the socket was never closed" !i kk);
              if s.ms_phase = PConnected then begin
                if Hashtbl.mem sent_ok kk && int_of_z s.ms_watch land 1 = 0 then
                  fail "busy-unwatched" (Printf.sprintf "line %d: s%d has transmitted a query but is not announced readable" !i kk);
